@@ -230,14 +230,16 @@ def main():
     jobs, jm = [], []
     for n, s, r in accepted:
         toks = lex_real(hook, [s])[0][0]
-        nsig = len(sig(toks))
+        nsig = len(sig(toks)) - (0 if s.endswith(b"\n") else 1)      # the end-of-file gap of a text without final newline may lie inside a line comment
+        if nsig <= 0: continue
         for pl in plans(rng, nsig, acc_n):
             jobs.append({"files": {"main.fer": insert(s, toks, pl)}, "mode": "run", "timeout": 10}); jm.append(("acc", n, s, r, toks, pl))
         # known-finding probe: a comment carrying the @extern directive in front of the first declaration
     rej_n = 8 if tier == "quick" else 25
     for n, s, r in rejected:
         toks = lex_real(hook, [s])[0][0]
-        nsig = len(sig(toks))
+        nsig = len(sig(toks)) - (0 if s.endswith(b"\n") else 1)
+        if nsig <= 0: continue
         for pl in plans(rng, nsig, rej_n):
             jobs.append({"files": {"main.fer": insert(s, toks, pl)}, "mode": "check", "timeout": 60}); jm.append(("rej", n, s, r, toks, pl))
     log("C19 bases done %.1fs, %d jobs" % (time.time() - T0, len(jobs)))
